@@ -325,12 +325,29 @@ def fiat_shamir(ctx, facts):
         if e[0] == "const" and isinstance(e[1], str):
             return facts.const_val(e[1])
         return None
+    # the two challenge lists may be produced by one local closure that is called twice (`combine(&left, &right)`)
+    helper = None
+    if not chains:
+        hs = [x for x in facts.tree(root) if x.kind == "Closure" and flow.find_calls(x, re.compile(r"Iterator::chain$"))]
+        calls_h = [(bb, t) for bb, t in b.calls() if re.search(r"ops::Fn(Mut|Once)?::call(_mut|_once)?$", F.callee(t)[0] or "")]
+        if len(hs) == 1 and len(calls_h) == 2:
+            helper = hs[0]
+            chains = flow.find_calls(helper, re.compile(r"Iterator::chain$")) * 2          # one chain, used for both provers
+    hb = helper if helper is not None else b
     good = len(chains) == 2
     details = []
     for bb, t in chains:
-        a0, a1 = (flow.expr_of(b, x, max_depth=10) for x in t["args"])
+        a0, a1 = (flow.expr_of(hb, x, max_depth=10) for x in t["args"])
         ok = a0[0] == "call" and a0[1].endswith("iter::once") and a1[0] == "call" and a1[1].endswith("iter::repeat")
-        x, y = (cval(a0[2][0]), cval(a1[2][0])) if ok else (None, None)
+        if ok and helper is not None:
+            from rules.C06 import upvar_sources
+            ups_ = upvar_sources(facts, b, helper.path)
+            def _up(e):
+                e = flow.strip_casts(e)
+                return ups_.get(e[1], e) if e[0] == "upvar" else e
+            x, y = cval(_up(a0[2][0])), cval(_up(a1[2][0]))
+        else:
+            x, y = (cval(a0[2][0]), cval(a1[2][0])) if ok else (None, None)
         details.append((x, y))
         good = good and ok and x == FRF and y == CRF
     ctx.ob("EXCLUDE-domain", "verifier:exclude-sequence", good, f"once({FRF}).chain(repeat({CRF})) for both provers" if good else f"the excluded ranges used by the verifiers are {details}, expected (first {FRF}, then {CRF}) for both provers: a challenge may fall inside the interpolation domain of the proof it is used with", site_of(b, chains[0][0]) if chains else site_of(b))
@@ -344,10 +361,21 @@ def fiat_shamir(ctx, facts):
     for bb, t in zips:
         a0, a1 = (flow.expr_of(b, x, max_depth=12) for x in t["args"])
         pairs.append((src(a0), src(a1)))
+    if helper is not None:
+        # inside the helper: zip(first parameter, second parameter); at each call: (left list, right list)
+        hz = [(bb, t) for bb, t in flow.find_calls(helper, re.compile(r"Iterator::zip$")) if "Iterator::chain" not in str(flow.expr_of(helper, t["args"][1], max_depth=4))]
+        in_order = len(hz) == 1 and "('arg', 2)" in str(flow.expr_of(helper, hz[0][1]["args"][0], max_depth=8)) and "('arg', 3)" in str(flow.expr_of(helper, hz[0][1]["args"][1], max_depth=8))
+        pairs = []
+        for bb, t in calls_h:
+            tup = flow.strip_casts(flow.expr_of(b, t["args"][1], max_depth=14))
+            if tup[0] == "agg" and tup[1] == "tuple" and len(tup[2]) == 2 and in_order:
+                pairs.append((src(tup[2][0]), src(tup[2][1])))
+            else:
+                pairs.append(("?", "?"))
     okp = sorted(pairs) == sorted([("received", "own-Left"), ("own-Right", "received")])
     ctx.ob("EXCLUDE-domain", "verifier:hash-order", okp, "left prover: (received, own); right prover: (own, received)" if okp else f"the two hash lists are paired as {pairs}: the verifiers derive other challenges than the prover (honest proofs fail) or the same hash is used twice", site_of(b, zips[0][0]) if zips else site_of(b))
     cl = [x for x in facts.tree(root) if not x.coroutine and flow.find_calls(x, re.compile(r"hashing::hash_to_field$"))]
-    okc = len(cl) == 2 and all([flow.expr_of(x, a) for a in flow.find_calls(x, re.compile(r"hashing::hash_to_field$"))[0][1]["args"]] == [("arg", 2, 0, 0), ("arg", 2, 0, 1), ("arg", 2, 1)] for x in cl)
+    okc = len(cl) == (1 if helper is not None else 2) and all([flow.expr_of(x, a) for a in flow.find_calls(x, re.compile(r"hashing::hash_to_field$"))[0][1]["args"]] == [("arg", 2, 0, 0), ("arg", 2, 0, 1), ("arg", 2, 1)] for x in cl)
     ctx.ob("EXCLUDE-domain", "verifier:challenge=h(left, right, exclude)", okc, "hash_to_field(pair.0, pair.1, exclude) in both lists" if okc else "a challenge is not hash_to_field(first hash, second hash, the zipped exclude value)", site_of(cl[0]) if cl else site_of(b))
     # prover
     pb = facts.bodies.get("protocol::ipa_prf::malicious_security::prover::ProofGenerator::<F, L, P, M>::gen_challenge_and_recurse")
